@@ -52,6 +52,10 @@ TEXTS = [
     "it's 50% of the W/2\t(tab)\r\nSec 15: that part \\ less and except",
     # old-Mac line ends: a carriage return on its own
     'T154N-R97W Sec 14: NE/4\rthat part lying north\rSec 15: W/2',
+    # distinct tracts that read alike (same Twp/Rge/Sec, same description):
+    # each is a row of its own
+    'T154N-R97W Sec 14: NE/4, Sec 15: W/2, Sec 14: NE/4',
+    'T154N-R97W Sec 1, 2 and 1: Lots 1 - 3, Sec 2: Lots 1 - 3',
 ]
 CONFIGS = ['parse_qq', 'parse_qq,clean_qq', 'parse_qq,sec_colon_cautious',
            'parse_qq,segment', '', 'parse_qq,qq_depth.1']
